@@ -266,9 +266,9 @@ esl_histogram_Add(ESL_HISTOGRAM *h, double x)
    */
   if (b < 0)    /* Reallocate below? */
     {				
-      nnew = -b*2;	/* overallocate by 2x */
-      if (nnew > INT_MAX - h->nb)
+      if (b < -((INT_MAX - h->nb) / 2))   /* test before multiplying: -b*2 must not overflow an int */
 	ESL_EXCEPTION(eslERANGE, "value %f requires unreasonable histogram bin number", x);
+      nnew = -b*2;	/* overallocate by 2x */
       ESL_RALLOC(h->obs, tmp, sizeof(uint64_t) * (nnew+ h->nb));
       
       memmove(h->obs+nnew, h->obs, sizeof(uint64_t) * h->nb);
@@ -282,9 +282,9 @@ esl_histogram_Add(ESL_HISTOGRAM *h, double x)
     }
   else if (b >= h->nb)  /* Reallocate above? */
     {
-      nnew = (b-h->nb+1) * 2; /* 2x overalloc */
-      if (nnew > INT_MAX - h->nb) 
+      if (b - h->nb + 1 > (INT_MAX - h->nb) / 2)  /* test before multiplying: (b-nb+1)*2 must not overflow an int */
 	ESL_EXCEPTION(eslERANGE, "value %f requires unreasonable histogram bin number", x);
+      nnew = (b-h->nb+1) * 2; /* 2x overalloc */
       ESL_RALLOC(h->obs, tmp, sizeof(uint64_t) * (nnew+ h->nb));
       for (bi = h->nb; bi < h->nb+nnew; bi++) h->obs[bi] = 0;
       if (h->imin == h->nb) { /* boundary condition of no data yet*/
